@@ -27,7 +27,8 @@ impl Check for C06 {
             max_entries: tier.pick(40, 100),
             bulk_n: tier.pick(300, 2000),
             big_values: false,
-            rollback: false,
+            rollback: 0,
+            rollback_weight: 0,
             reopen_weight: 8,
             overlay_weight: 0,
             witness_weight: 1.0,
